@@ -373,12 +373,64 @@ func numTermArgs(t *tb, args []ssa.Value) string {
 // valueCond describes the conditions on the `unsigned` parameter (and on data
 // bytes) that dominate a return under the specialisation.
 func valueCond(cd *codec, r *Result, ret *ssa.Return) string {
+	return valueCondAt(cd, r, ret.Block(), nil)
+}
+
+// returnAlts: the (condition, value term) pairs a success return stands for. A single-exit function returns a phi of the
+// values its branches computed; each executable incoming edge is one alternative, under the conditions of its
+// predecessor block plus the test that selects the edge - the same pairs the early-return form gives.
+func returnAlts(cd *codec, r *Result, ret *ssa.Return) [][2]string {
+	if phi, ok := ret.Results[0].(*ssa.Phi); ok && phi.Block() == ret.Block() && len(dominatingCondsNonConst(r, ret.Block())) == 0 {
+		var out [][2]string
+		okAll := true
+		for i, p := range phi.Block().Preds {
+			if r.Edge != nil && !r.Edge[[2]int{p.Index, phi.Block().Index}] {
+				continue
+			}
+			if _, nested := phi.Edges[i].(*ssa.Phi); nested {
+				okAll = false
+			}
+			out = append(out, [2]string{valueCondAt(cd, r, p, phi.Block()), valueTerm(cd, r, phi.Edges[i])})
+		}
+		if okAll && len(out) > 0 {
+			return out
+		}
+	}
+	return [][2]string{{valueCond(cd, r, ret), valueTerm(cd, r, ret.Results[0])}}
+}
+
+func dominatingCondsNonConst(r *Result, b *ssa.BasicBlock) []condEdge {
+	var out []condEdge
+	for _, ce := range dominatingConds(b) {
+		if l := r.get(ce.Cond); l.k != cst {
+			out = append(out, ce)
+		}
+	}
+	return out
+}
+
+// valueCondAt: the non-constant conditions under which block b is reached and - when succ is given - left towards succ.
+func valueCondAt(cd *codec, r *Result, b *ssa.BasicBlock, succ *ssa.BasicBlock) string {
 	t := newTB(r)
 	t.names[cd.valFn.Params[0]] = "data"
 	t.names[cd.valFn.Params[1]] = "pos"
 	t.names[cd.valFn.Params[4]] = "unsigned"
 	var cs []string
-	for _, ce := range dominatingConds(ret.Block()) {
+	conds := dominatingConds(b)
+	if succ != nil {
+		if iff, ok := lastInstr(b).(*ssa.If); ok && len(b.Succs) == 2 && b.Succs[0] != b.Succs[1] {
+			cond, val := iff.Cond, b.Succs[0] == succ
+			for {
+				u, isNot := cond.(*ssa.UnOp)
+				if !isNot || u.Op != token.NOT {
+					break
+				}
+				cond, val = u.X, !val
+			}
+			conds = append(conds, condEdge{iff, cond, val})
+		}
+	}
+	for _, ce := range conds {
 		l := r.get(ce.Cond)
 		if l.k == cst {
 			continue // decided by the specialisation
@@ -399,7 +451,14 @@ func valueCond(cd *codec, r *Result, ret *ssa.Return) string {
 func condTerm(t *tb, v ssa.Value) string {
 	switch x := v.(type) {
 	case *ssa.Parameter:
-		return t.names[x]
+		if n, ok := t.names[x]; ok && n != "" {
+			return n
+		}
+		// a parameter of a function the case was delegated to: the caller's term for the argument
+		if n, ok := t.ssub[x]; ok && n != "" {
+			return n
+		}
+		return t.term(x).String()
 	case *ssa.BinOp:
 		// "a != b" is written as the negation of "a == b", so that a test and its inverted form read alike
 		if x.Op == token.NEQ {
